@@ -443,6 +443,7 @@ func VerifC18_Seq(up, i1, i2 int) {
 	for k := range want {
 		c18Same(want[k], got[k])
 	}
+	verifNoGlobalWritesExcept("") // C10: no hidden package-level state is written
 	verifReach("done")
 }
 
@@ -562,5 +563,6 @@ func VerifC18_KeysTwice(w1, w2 int) {
 	verifAssert(e2 == nil, "second key derivation succeeds")
 	verifAssert(verifBytesEq(g1[:], s1[:]), "first derived key == TS005 AES derivation")
 	verifAssert(verifBytesEq(g2[:], s2[:]), "a key derived after another derivation == TS005 AES derivation (independent of the earlier call)")
+	verifNoGlobalWritesExcept("") // C10: no hidden package-level state is written
 	verifReach("done")
 }
